@@ -169,6 +169,35 @@ def run(ctx):
     rc, rep = cr.stop()
     if rep.strip():
         ctx.violation("sanitizer report from the daemon during C03 cases", {"report": rep[:3000]}, found_input=False)
+    # the statement does not depend on how the daemon was started: the same under the documented options that change which
+    # services run (--benchmark disables the timers and the group map; --num-threads; --origin)
+    for opts in (["--benchmark"], ["--num-threads=1", "--origin=127.0.0.1"]):
+        co = credcorr.CredRig(ctx, exe, orc, tag="c03opt", nthreads=2, extra=opts)
+        if not co.ok:
+            ctx.violation("daemon does not start with %s" % " ".join(opts), {"obligation": "start"}, found_input=False)
+            continue
+        for (u, g) in pairs[:5] + [(54321, 12345)]:
+            r, st = rig.encode(co.d.sock, uid=u, gid=g, cipher=0, data=b"opt")
+            ctx.count(("opts", tuple(opts), u, g))
+            dist["options"] = dist.get("options", 0) + 1
+            if r is None or r["error_num"] != 0:
+                fails.append({"why": "encode failed for peer %s under %s: %s" % ((u, g), opts, r and r["error_str"]), "kind": "options"})
+                continue
+            p_ = co.o.parse(r["data"])
+            got = (p_["msg"]["cred_uid"], p_["msg"]["cred_gid"]) if p_ else None
+            if got != (u, g):
+                fails.append({"why": "under %s a credential requested by euid=%d egid=%d records identity %s" % (" ".join(opts), u, g, got),
+                              "kind": "options", "cred_hex": r["data"].hex()})
+            # the decoding client's identity is the kernel's too: a credential for uid 0 only is not for (u, g) != root
+            r0, st = rig.encode(co.d.sock, uid=5, gid=6, auth_uid=0, data=b"root only")
+            if r0 and r0["error_num"] == 0 and u != 0:
+                d, st = rig.decode(co.d.sock, r0["data"], uid=u, gid=g)
+                if d is None or d["error_num"] in (0, 15, 16, 17) or d["data_len"] != 0:
+                    fails.append({"why": "under %s a credential restricted to uid 0 was disclosed to the client euid=%d egid=%d: %s"
+                                         % (" ".join(opts), u, g, d and (d["error_num"], d["data"][:20])), "kind": "options"})
+        rco, repo = co.stop()
+        if repo.strip():
+            ctx.violation("sanitizer report from the daemon under %s" % " ".join(opts), {"report": repo[:3000]}, found_input=False)
     # per-connection: clients with different identities (values >= 2^31 included) being authenticated at the same instant
     import conc
     probs, rep = conc.identity_race(ctx, exe, nclients=8, rounds=600 if ctx.thorough else 120, nthreads=2)
